@@ -208,6 +208,11 @@ mod embedded_io;
 #[cfg(test)]
 mod tests;
 
+#[cfg(circular_buffer_verif)]
+mod verif_hooks;
+#[cfg(circular_buffer_verif)]
+pub use crate::verif_hooks::{verif_add_mod, verif_sub_mod};
+
 use core::cmp::Ordering;
 use core::fmt;
 use core::hash::Hash;
